@@ -38,6 +38,7 @@ type Gen struct {
 	Malformed int  // per-mille probability of a malformed op
 	NMal      int
 	ReadOnlyHandlesOnly bool
+	NoPaging  bool
 	Times     []int
 }
 
@@ -472,9 +473,17 @@ func (g *Gen) handleOp() bool {
 	if h.dir {
 		switch r.Intn(5) {
 		case 0, 1:
-			g.emit(-1, "HReaddir %d %d", s, Pick(r, []int{-1, 0, 1, 2, 3, 7}))
+			if g.NoPaging {
+				g.emit(-1, "HReaddir %d %d", s, Pick(r, []int{-1, 0, 100}))
+			} else {
+				g.emit(-1, "HReaddir %d %d", s, Pick(r, []int{-1, 0, 1, 2, 3, 7}))
+			}
 		case 2:
-			g.emit(-1, "HReaddirnames %d %d", s, Pick(r, []int{-1, 0, 1, 2, 3, 7}))
+			if g.NoPaging {
+				g.emit(-1, "HReaddirnames %d %d", s, Pick(r, []int{-1, 0, 100}))
+			} else {
+				g.emit(-1, "HReaddirnames %d %d", s, Pick(r, []int{-1, 0, 1, 2, 3, 7}))
+			}
 		case 3:
 			g.emit(-1, "HStat %d", s)
 		default:
